@@ -585,8 +585,8 @@ DIMS_BASIS = _dim_tuples(2, 4, 24)
 
 @st.composite
 def _names(draw, k):
-    pool = draw(st.permutations(list(range(10))))
-    return [int(x) for x in pool[:k]]
+    # k distinct names in drawn order (st.permutations is biased towards the identity; a unique list is not)
+    return [int(x) for x in draw(st.lists(st.integers(0, 9), min_size=k, max_size=k, unique=True))]
 
 
 @st.composite
@@ -843,20 +843,21 @@ def check_product_statistics(case, ctx):
         if ctx.check(ps.size == int(np.prod(pshape)), "compose_povm_state_size", f"{ps.size} vs {pshape}"):
             tab = ps.reshape(pshape)
             exp = np.array([exp_tab[((), tuple(int(x) for x in pidx))] for pidx in np.ndindex(*pshape)]).reshape(pshape)
-            # truncate_and_normalize zeroes entries < atol=1e-13 and renormalises: perturbation <= size * 1e-13
-            ctx.close(tab, exp, tol + ps.size * 2e-13, "compose_povm_state_layout")
+            # documented post-processing of the distribution: truncate_and_normalize zeroes entries < atol = 1e-13 and
+            # MultinomialDistribution zeroes entries < eps_zero = 1e-8, both renormalise: perturbation <= size * 1e-8
+            # (a layout error moves entries by O(1e-2) or more)
+            ctx.close(tab, exp, tol + ps.size * 1.01e-8, "compose_povm_state_layout")
     elif mp_bearing:
         marg = {}
         for (midx, pidx), val in exp_tab.items():
             marg[midx] = marg.get(midx, 0.0) + val
-        if min(marg.values()) > 1e-6:  # MProcess o State truncates outcomes with p <= eps_zero = 1e-8
-            ens = compose_qoperations(mp, gate, rho)
-            for midx, val in sorted(marg.items()):
-                if not ctx.close(ens.prob_dist[midx], val, tol, "mplayout:compose" if two_mp else "compose_mprocess_state_layout",
-                                 f"idx={midx} shape={mshape}"):
-                    break
-        else:
-            ctx.label("compose-skipped:tiny-probability")
+        # documented post-processing: MProcess o State and MultinomialDistribution zero probabilities <= eps_zero = 1e-8
+        # and renormalise: perturbation <= 2 * size * 1e-8 (a layout error moves entries by O(1e-2) or more)
+        ens = compose_qoperations(mp, gate, rho)
+        for midx, val in sorted(marg.items()):
+            if not ctx.close(ens.prob_dist[midx], val, tol + 2.02e-8 * len(marg),
+                             "mplayout:compose" if two_mp else "compose_mprocess_state_layout", f"idx={midx} shape={mshape}"):
+                break
 
     permuted = any(list(case[p]) != order for p in ("perm_state", "perm_povm") + (("perm_gate", "perm_mp") if full else ()))
     ctx.label("args:permuted" if permuted else "args:ascending", f"mprocess-factors={len(mp_bearing)}")
